@@ -37,6 +37,13 @@ def subjects(tier):
     S_['Add'] = dict(kind='DataClass', values=[O('ev.Add', FMS(x, y)), O('ev.Add', FMS(x, x)), O('ev.Multiply', FMS(x, y)), O('ev.Add', FMS(y, y))], routes=[0, 5] if tier != 'thorough' else [0, 1, 5])
     S_['Argument'] = dict(kind='DataClass', values=[O('ev.Argument', S('x'), T(C2), TYPE('float')), O('ev.Argument', S('x'), T(C2), TYPE('int')), O('ev.Argument', S('x'), T(c(3)), TYPE('float'))], routes=[0, 1, 2])
     S_['Points'] = dict(kind='Singleton', values=[O('pt.SimplexGaussPoints', I(1), I(2)), O('pt.SimplexGaussPoints', I(1), I(3)), O('pt.CoordsUniformPoints', AD('float', (1, 1), ['0.5']), F(1.)), O('pt.CoordsUniformPoints', AD('float', (1, 1), ['0.5']), I(1))], routes=[0, 1])
+    for name, sub in S_.items():
+        sub['depth'] = 4 if tier == 'quick' else 5
+    if tier == 'thorough':  # depth 5 over two routes, all routes at depth 4
+        for name in ('arraydata', 'Constant', 'Add', 'Argument'):
+            full = S_[name]
+            S_[name + '/all-routes'] = dict(full, depth=4)
+            S_[name] = dict(full, routes=full['routes'][:1] + full['routes'][-1:])
     return S_
 
 
@@ -58,7 +65,10 @@ def python_equal(sa, sb):
 def observe_params(obj, spec):
     'type exact description of the parameters an object shows, next to what the spec asked for'
     if spec[0] == 'arraydata':
-        return cc.vcanon(obj), canon(spec)
+        try:
+            return cc.vcanon(obj), canon(spec)
+        except Exception as e:
+            return ['unreadable', type(e).__name__], canon(spec)
     ent = registry()[spec[1]]
     seen, asked = [], []
     for p, a in spec[2]:
@@ -82,6 +92,7 @@ class Explorer:
         self.keys = [cc.ckey(v) for v in self.values]
         assert len(set(self.keys)) == len(self.keys)
         self.kind = self.sub['kind']
+        self.leftover = 0
         self.baseline = {}
         for vi, spec in enumerate(self.values):
             for r in self.sub['routes']:
@@ -118,8 +129,7 @@ class Explorer:
         '''execute the history on the real classes from an empty table; returns
         (violation or None, number of live slots, abstract state); a violation is (key, what)'''
         from nutils import types
-        gc.collect()
-        slots = []   # [value index, object]
+        slots = []   # [value index, object]; the table is empty here: every run ends with a collection
         pending = []  # value indices dropped since the last gc (may still sit in the weak tables)
         created = []  # value indices created so far
         viol = None
@@ -167,8 +177,10 @@ class Explorer:
                 break
         state = json.dumps([[vi for vi, o in slots], sorted(pending)])
         nslots = len(slots)
-        slots = None
+        refs = [weakref.ref(o) for vi, o in slots]
+        slots = o = obj = None
         gc.collect()
+        self.leftover += sum(1 for r in refs if r() is not None)  # must stay 0: every history starts from empty intern tables
         return viol, nslots, state
 
     def invariants(self, slots, types):
@@ -217,8 +229,10 @@ def run_shard(spec, tier, res):
         res.violation('intern:baseline:{}'.format(ex.kind), ex.baseline_problem, {'kind': 'history', 'subject': spec['subject'], 'tier': tier, 'events': []})
         return
     first = ex.events(0)[spec['first']]
-    depth = spec['depth']
+    depth = ex.sub['depth']
     ex.explore([first], depth, res, {'kind': 'history', 'subject': spec['subject'], 'tier': tier})
+    if ex.leftover:
+        res.errors.append('intern subject {}: {} objects survived the end of their history (an outside reference keeps them alive; histories are not independent)'.format(spec['subject'], ex.leftover))
 
 
 def nfirst(name, tier):
